@@ -167,6 +167,15 @@ Theorem C17_inherited_settings : forall body own parent,
 Proof. intros body own parent B T. unfold render_file, effective. simpl. rewrite B, T. reflexivity. Qed.
 Print Assumptions C17_inherited_settings.
 
+(* 7. A file shared by several mocks whose header parameters disagree: the header is that of the
+   file-level settings = the first mock's effective settings; what later mocks of the file set
+   (another constraint, another boilerplate) has no influence on it. *)
+Theorem C17_shared_file_first_mock : forall m rest rest',
+  shared_prefix (m :: rest) = shared_prefix (m :: rest') /\
+  shared_prefix (m :: rest) = Some (header (s_fmt m) (s_tmpl m) (s_bp m) (s_tags m) ++ pkg_line (s_pkg m)).
+Proof. intros. split; reflexivity. Qed.
+Print Assumptions C17_shared_file_first_mock.
+
 (* the parser's fuel is always sufficient: never OutOfFuel *)
 Theorem C17_parser_total : forall acc ts, or_from (fuel_for ts) acc ts <> PFuel.
 Proof. exact or_from_total. Qed.
